@@ -29,7 +29,7 @@
    deletion / stale-root rewrite: gen_flat) and hence the end-to-end join of (a)
    and (b), and that the callback emissions are exactly the canonical node set
    (gen_nodes_path); these are covered by the correspondence and the Go oracle. *)
-From GV Require Import Lib.Tactics Lib.Interleave Trie.Hex Trie.Node Trie.Ops Trie.Hash Trie.OpsProofs Trie.Canon Trie.Stack Trie.StackProofs Trie.ProofProofs Trie.Commit Trie.Generate Trie.GenerateProofs Trie.GenerateAssemble Trie.GenerateAssemble2 Trie.GenerateSched Trie.GenerateWalk Trie.GenerateWalk2 Trie.GenerateRoot Trie.GenerateRoot2 Trie.GenerateRoot3 Trie.GenerateFlat2 Trie.GenerateDisjoint2 Trie.GenerateLocal2 Trie.GenerateExample.
+From GV Require Import Lib.Tactics Lib.Interleave Trie.Hex Trie.Node Trie.Ops Trie.Hash Trie.OpsProofs Trie.Canon Trie.Stack Trie.StackProofs Trie.ProofProofs Trie.Commit Trie.Generate Trie.GenerateProofs Trie.GenerateAssemble Trie.GenerateAssemble2 Trie.GenerateSched Trie.GenerateWalk Trie.GenerateWalk2 Trie.GenerateRoot Trie.GenerateRoot2 Trie.GenerateRoot3 Trie.GenerateFlat2 Trie.GenerateDisjoint2 Trie.GenerateLocal2 Trie.GenerateExample Trie.GenerateExample2.
 Local Open Scope N_scope.
 
 (* the callback-instrumented stack trie of the model computes exactly what the
@@ -214,6 +214,7 @@ Print Assumptions C11_other_partition_writes.
 
 (* non-vacuity: a concrete state (single partition, extension subtree root, stale
    root, dangling slot) on which generate succeeds against the root computed by
-   ordinary insertion, fixes the flat state and deletes the orphan at [3] *)
-Example C11_nonvacuous : ex_check = true.
-Proof. vm_compute. reflexivity. Qed.
+   ordinary insertion, fixes the flat state and deletes the orphan at [3]; it meets
+   the hypotheses of C11_gen_root / C11_gen_flat *)
+Example C11_nonvacuous : wf_db ex_db /\ small_state toy_hash ex_db /\ ex_check = true.
+Proof. exact (conj ex_wf (conj ex_small ex_check_true)). Qed.
